@@ -37,16 +37,16 @@ func keyLess(a, b [3]int) bool {
 
 // feature slots and their values (value 0 = absent)
 var c07Features = [][]string{
-	{"", "@@"},                                   // 0 exception
-	{"", "important"},                            // 1
-	{"", "domain=a.com"},                         // 2
+	{"", "@@"},           // 0 exception
+	{"", "important"},    // 1
+	{"", "domain=a.com"}, // 2
 	{"", "script", "script,image", "~script", "~script,~image"}, // 3 content types
-	{"", "third-party", "~third-party"},          // 4
-	{"", "match-case"},                           // 5
-	{"", "dnstype=A"},                            // 6
-	{"", "ctag=pc"},                              // 7
-	{"", "client=10.0.0.1"},                      // 8
-	{"", "denyallow=x.com"},                      // 9
+	{"", "third-party", "~third-party"},                         // 4
+	{"", "match-case"},                                          // 5
+	{"", "dnstype=A"},                                           // 6
+	{"", "ctag=pc"},                                             // 7
+	{"", "client=10.0.0.1"},                                     // 8
+	{"", "denyallow=x.com"},                                     // 9
 }
 
 func c07Build(feat []int) *c07Rule {
